@@ -106,6 +106,7 @@ pub struct MonA {
     pub pacing: Option<PacingSpec>,
     pub debt_forced: bool,
     pub revived_total: u64,
+    pub pace: crate::pace::Pace,
 }
 
 pub struct Exec {
@@ -128,6 +129,8 @@ pub struct Exec {
     pub inconclusive: Option<String>,
     /// an injected panic is being handled: the model may have been updated only partially
     pub cfg_check_traverse_every: bool,
+    /// trace events observed per op index (fault enumeration)
+    pub op_events: BTreeMap<usize, u64>,
 }
 
 pub const EPS: f64 = 1e-3;
@@ -156,6 +159,7 @@ impl Exec {
             use_hook: true,
             inconclusive: None,
             cfg_check_traverse_every: true,
+            op_events: BTreeMap::new(),
         }
     }
 
@@ -194,6 +198,7 @@ impl Exec {
             }
             self.judge_context(id, a, e.ctx, call_a, "destructed");
         }
+        let mut wt_cache: Option<(u8, BTreeMap<Id, Vec<(Ref, u8)>>)> = None;
         for e in evs {
             match e {
                 Ev::GcFree { id, ctx } => {
@@ -214,12 +219,16 @@ impl Exec {
                     let torn = self.teardown == Some(a) || track::ctx_kind(ctx) == track::CTX_ARENA_DROP;
                     if !torn {
                         // a shell that a reachable weak pointer still refers to must stay allocated
-                        let wt = self.w.weak_targets(a);
+                        if wt_cache.as_ref().map(|(ca, _)| *ca != a).unwrap_or(true) {
+                            wt_cache = Some((a, self.w.weak_targets(a)));
+                        }
+                        let wt = &wt_cache.as_ref().unwrap().1;
                         if wt.contains_key(&id) {
+                            let holder = wt[&id][0];
                             self.viol(
                                 "C05",
                                 "M-weak",
-                                format!("allocation of object {} released while a reachable weak pointer {:?} still refers to it", id, wt[&id][0]),
+                                format!("allocation of object {} released while a reachable weak pointer {:?} still refers to it", id, holder),
                             );
                         }
                     }
@@ -371,6 +380,11 @@ impl Exec {
             }
             self.inconclusive = Some(format!("unexpected injected panic at {}", site));
             return false;
+        }
+        if allowed_injected && msg.contains("already mutably borrowed") {
+            // permanently failing trace (leaked RefMut): an expected, documented panic
+            self.stats.inc("borrow_panics_caught");
+            return true;
         }
         if msg.contains(fault::RUNAWAY) {
             self.viol("C09", "M-pace", format!("{}: collection call exceeded the logical-step watchdog (runaway)", site));
